@@ -17,7 +17,8 @@ MANIFEST = {
             "for EVERY chain (any number of branches, any condition in each, with or without else; the dropped elsif closures "
             "of the pinned code are a refuted variant), and for chains of positive single tests on the same or on different "
             "variables branch i sees its variable as exactly the tested class and every other variable without what the earlier "
-            "branches took, the else branch what nobody took. Tie: single conditionals and elsif chains (2-4 branches, negated "
+            "branches took, the else branch what nobody took; for chains of single tests of either polarity narrowing is sound "
+            "(C10_elsif_sound: no branch loses a variant that can reach it). Tie: single conditionals and elsif chains (2-4 branches, negated "
             "tests, an && first condition, optional else) are run through ti and the types of every variable in every branch "
             "and after `end` are compared with the model by vm_compute; end to end, generated programs (1-3 union variables of 2-3 variants, "
             "if/unless/else, && chains, repeated tests, elsif chains with and without an earlier && condition, nesting two "
@@ -34,7 +35,7 @@ RULE = ("model tie: 1-3 variables, one conditional (if/unless, 1-3 conjuncts, op
         "elsif chain or a nested conditional")
 TRUSTED = []
 ASSUMPTIONS = ["no branch assigns a tested variable", "tested classes are variants of the variable (a test for a foreign class admits nothing)"]
-PARTIAL = ["elsif chains with negated tests or && conditions: restoration proved, branch types by correspondence only", "nesting: exploration only", "a positive test repeated on one variable in one && chain is outside the theorem"]
+PARTIAL = ["elsif chains with negated tests: restoration and soundness proved, exactness by correspondence only; && conditions inside chains: restoration proved, branch types by correspondence only", "nesting: exploration only", "a positive test repeated on one variable in one && chain is outside the theorem"]
 
 
 def run(src):
